@@ -730,6 +730,31 @@ func runFacts(repo, outdir string) error {
 		return err
 	}
 	lcd.raw(fmt.Sprintf("/-- how `decoder.varint` treats `binary.Uvarint`'s n (unguarded `d.buf[n:]` panics for n < 0) -/\ndef decodeCfg : RaftWal.DecodeCfg := { overflowPanics := %v, shortIsErr := %v }\n\n", overflowPanics, shortIsErr))
+	{ // newSegment: which codec ID is recorded for a new segment
+		ns, err := walP.fn("WAL", "newSegment")
+		if err != nil {
+			return err
+		}
+		expr := ""
+		ast.Inspect(ns.Body, func(n ast.Node) bool {
+			if kv, ok := n.(*ast.KeyValueExpr); ok {
+				if id, ok := kv.Key.(*ast.Ident); ok && id.Name == "Codec" {
+					expr = walP.src(kv.Value)
+				}
+			}
+			return true
+		})
+		var fromCodec bool
+		switch expr {
+		case "w.codec.ID()":
+			fromCodec = true
+		case "CodecBinaryV1":
+			fromCodec = false
+		default:
+			return fmt.Errorf("wal.newSegment: Codec field is %q, neither w.codec.ID() nor CodecBinaryV1", expr)
+		}
+		lcd.raw(fmt.Sprintf("/-- `newSegment` records `%s` as the segment's codec: true = the configured codec's ID -/\ndef newSegmentRecordsConfiguredCodec : Bool := %v\n\n", expr, fromCodec))
+	}
 	if err := lcd.finish(outdir); err != nil {
 		return err
 	}
